@@ -40,15 +40,21 @@ def bytes_from_terms(terms, mutable=False):
     return SBytes(n, at, mutable)
 
 
+def clone_meta(src, dst):
+    dst.origin = src.origin
+    dst.parts = src.parts
+    return dst
+
+
 def bytes_concat(a, b, mutable=False):
     a.commit()
     b.commit()
     if a.conc is not None and b.conc is not None:
         return SBytes.concrete(bytes(a.conc + b.conc), mutable)
     if isinstance(a.length, int) and a.length == 0:
-        return SBytes(b.length, b.at, mutable, conc=b.conc)
+        return clone_meta(b, SBytes(b.length, b.at, mutable, conc=b.conc))
     if isinstance(b.length, int) and b.length == 0:
-        return SBytes(a.length, a.at, mutable, conc=a.conc)
+        return clone_meta(a, SBytes(a.length, a.at, mutable, conc=a.conc))
     la = a.length
     if isinstance(la, int) and isinstance(b.length, int):
         ln = la + b.length
@@ -68,7 +74,33 @@ def bytes_concat(a, b, mutable=False):
         if z3.is_false(c):
             return ba(z3.simplify(i_ - la))
         return z3.If(c, _z(aa(i_)), _z(ba(z3.simplify(i_ - la))))
-    return SBytes(ln, at, mutable)
+    r = SBytes(ln, at, mutable)
+    r.parts = (a.parts or [a]) + (b.parts or [b])
+    return r
+
+
+def bytes_sum(ex, b):
+    """sum(b) for a byte string"""
+    n = b.concrete_len()
+    if n is not None and (b.parts is None or n <= 64):
+        t = z3.IntVal(0)
+        for i in range(n):
+            t = t + _z(b.at(i))
+        return mk_int(t)
+    if b.origin is not None:
+        f, off, name = b.origin
+        ps = ex.prefix_sum(f, name)
+        lo = zi(off)
+        hi = z3.simplify(lo + zlen(b))
+        t = ps(hi) - ps(lo)
+        ex.fact(z3.Implies(zlen(b) >= 0, z3.And(t >= 0, t <= 255 * zlen(b))))
+        return mk_int(t)
+    if b.parts:
+        t = z3.IntVal(0)
+        for p in b.parts:
+            t = t + zi(bytes_sum(ex, p))
+        return mk_int(t)
+    raise Unsupported('sum over a symbolic-length byte string without known structure')
 
 
 def _z(t):
@@ -137,6 +169,8 @@ def bytes_slice(ex, b, sl, mutable=None):
             return base(z3.simplify(_z(i) + zlo))
     r = SBytes(ln if isinstance(ln, int) else ln.t, at, mutable)
     r.pending = pend
+    if b.origin is not None:
+        r.origin = (b.origin[0], mk_int(zi(b.origin[1]) + zi(lo)), b.origin[2])
     return r
 
 
@@ -438,8 +472,9 @@ def binop(ex, op, l, r, inplace=False):
     if isinstance(op, ast.Add):
         if isinstance(l, SBytes) and isinstance(r, SBytes):
             if inplace and l.mutable:
-                n = bytes_concat(l, r, True)
+                n = bytes_concat(snapshot(l), r, True)
                 l.length, l._at, l.conc = n.length, n._at, n.conc
+                clone_meta(n, l)
                 return l
             return bytes_concat(l, r, l.mutable)
         if isinstance(l, SList) and isinstance(r, SList):
@@ -953,6 +988,7 @@ def setitem(ex, obj, idx, v):
                 return base(i)
             return z3.If(c, zv, _z(base(i)))
         obj._at, obj.conc = at, None
+        obj.origin = obj.parts = None
         return
     if isinstance(obj, SList):
         if isinstance(idx, slice):
@@ -1009,11 +1045,12 @@ def bytes_setslice(ex, obj, sl, v):
     tail = bytes_slice(ex, snapshot(obj), slice(mk_int(zi(lo) + zi(ln)), None, None))
     new = bytes_concat(bytes_concat(head, v), tail, True)
     obj.length, obj._at, obj.conc = new.length, new._at, new.conc
+    clone_meta(new, obj)
 
 
 def snapshot(b):
     s = SBytes(b.length, b._at, b.mutable, conc=b.conc)
-    return s
+    return clone_meta(b, s)
 
 
 def delitem(ex, obj, idx):
